@@ -154,11 +154,17 @@ def _idx(k):
 class OrbitIntegrator:
     step_size = 1.0
 
-    def __init__(self):
+    def __init__(self, broken=None):
         self.nstep = 0
         self.visited = []
+        self.broken = broken  # orbit edge (b, b+1) that the integrator cannot cross in either direction: IntegratorError
+        self.failed = False
 
     def step(self, state):
+        if self.broken is not None and {int(state.pos), int(state.pos) + int(state.dir)} == {self.broken, self.broken + 1}:
+            self.failed = True
+            from mici.errors import ConvergenceError
+            raise ConvergenceError("orbit model: this step fails loudly (implicit / constrained integrators)")
         s = state.copy()
         s.pos = state.pos + state.dir
         s.mom = Mom((int(s.pos),))
@@ -268,18 +274,28 @@ def _replay_payload(model, V, extra):
     return dict(extra, weights=vals)
 
 
-def case_metropolis(rec, n_step=None, n_range=None):
+def case_metropolis(rec, n_step=None, n_range=None, broken_edges=False):
+    """broken_edges: additionally, for every position b of ONE orbit edge (b, b+1) that the integrator cannot cross (it raises an
+    IntegratorError there, in both directions - a step either reverses or fails loudly, C02), balance at the end state 0."""
     install()
     MIN_MODE["stat_only"] = False
     rec.encoded(T.MetropolisIntegrationTransition._sample_n_step, T.MetropolisStaticIntegrationTransition.sample,
                 T.MetropolisRandomIntegrationTransition.sample, U.LogRepFloat)
     nmax = n_step if n_step else n_range[1] - 1
+    if broken_edges:
+        for b in range(-nmax - 1, nmax + 1):
+            _case_metropolis_one(rec, n_step, n_range, nmax, b)
+    else:
+        _case_metropolis_one(rec, n_step, n_range, nmax, None)
+
+
+def _case_metropolis_one(rec, n_step, n_range, nmax, broken):
     starts = [(i, d) for i in range(-nmax, nmax + 1) for d in (1, -1)]
     total = {}
     one_checks = []
     for (i0, d0) in starts:
         def fn(ctx):
-            integ = OrbitIntegrator()
+            integ = OrbitIntegrator(broken)
             if n_step:
                 tr = T.MetropolisStaticIntegrationTransition(OrbitSystem(), integ, n_step=n_step)
             else:
@@ -295,6 +311,11 @@ def case_metropolis(rec, n_step=None, n_range=None):
             # statistics: n_step = steps taken; accept statistic = min(1, w_end/w_start) of the proposed end state
             if stats["n_step"] != integ.nstep:
                 raise AssertionError(f"n_step statistic {stats['n_step']} != steps taken {integ.nstep}")
+            if integ.failed:
+                # the proposal is not an involution image: the chain must stay (direction flipped), acceptance statistic 0
+                if not (stats["accept_stat"] == 0.0 and stats["convergence_error"] is True):
+                    raise AssertionError("integrator error: accept_stat / convergence_error statistics do not record the failure")
+                return int(out.pos), int(out.dir), False
             prop = i0 + d0 * integ.nstep
             want = W.RF(Poly.var(f"w{_idx(prop)}"), Poly.var(f"w{_idx(i0)}"))
             got = W.tofrac(stats["accept_stat"])
@@ -323,6 +344,8 @@ def case_metropolis(rec, n_step=None, n_range=None):
         pass
     base = [v > 0 for v in V.values()]
     label = f"metropolis n_step={n_step}" if n_step else f"metropolis n_step_range={n_range}"
+    if broken is not None:
+        label += f", integrator fails on the orbit edge ({broken},{broken + 1})"
     rec.reachable(label, base)
     for (j, dj), lst in sorted(total.items()):
         if j != 0:
@@ -330,8 +353,8 @@ def case_metropolis(rec, n_step=None, n_range=None):
         V.setdefault("w0", z3.Real("w0"))
         lhs = z3.Sum([_term(f"w{_idx(i0)}", prob, atoms, V) for i0, atoms, prob in lst])
         rec.obligation(f"{label}: sum_i w_i P(i -> (0,{dj})) == w_0", base + [V["w0"] > 0], lhs != V["w0"],
-                       key=f"metropolis/{'static' if n_step else 'random'}:invariance",
-                       replay=lambda m, V=V: _replay_payload(m, V, {"kind": "metropolis", "n_step": n_step, "n_range": n_range}),
+                       key=f"metropolis/{'static' if n_step else 'random'}:invariance" + ("" if broken is None else ":integrator-error"),
+                       replay=lambda m, V=V: _replay_payload(m, V, {"kind": "metropolis", "n_step": n_step, "n_range": n_range, "broken": broken}),
                        timeout_ms=120000)
     # probabilities of all outcomes from a start sum to one
     by_start = {}
@@ -506,6 +529,9 @@ def cases(tier):
     for n in ((1, 2, 3, 4, 5) if th else (1, 2, 3)):
         out.append(Case(f"metropolis/static/{n}", case_metropolis, {"n_step": n}, timeout_s=900))
     out.append(Case("metropolis/random/1-4", case_metropolis, {"n_range": [1, 4]}, timeout_s=900))
+    for n in ((2, 3, 4) if th else (2, 3)):
+        out.append(Case(f"metropolis/static/{n}/integrator_error", case_metropolis, {"n_step": n, "broken_edges": True}, timeout_s=1800))
+    out.append(Case("metropolis/random/1-4/integrator_error", case_metropolis, {"n_range": [1, 4], "broken_edges": True}, timeout_s=1800))
     if th:
         out.append(Case("metropolis/random/2-6", case_metropolis, {"n_range": [2, 6]}, timeout_s=1800))
     for kind in ("multinomial", "slice"):
@@ -608,7 +634,7 @@ def replay(cand):
         nmax = n_step if n_step else n_range[1] - 1
 
         def make():
-            integ = OrbitIntegrator()
+            integ = OrbitIntegrator(p.get("broken"))
             if n_step:
                 return T.MetropolisStaticIntegrationTransition(CSys(), integ, n_step=n_step), integ
             return T.MetropolisRandomIntegrationTransition(CSys(), integ, n_step_range=tuple(n_range)), integ
